@@ -193,6 +193,12 @@ def main():
             res = evaluate(mdir, [prop], tests=False)
             fired = res.get("fired", {}).get(prop, [])
             ok = bool(fired) and not any(l.startswith("CHECK-ERROR") for l in fired)
+            if meta.get("expect") == "not-decided" and res["confirm"].get("applies"):
+                # a mutant kept on record although no rule over this repository's source decides it; the reason is
+                # in meta.json (not_decided_reason) and in DESIGN.md. It does not count as a miss of the self-test.
+                print("seeded %-34s NOT-DECIDED (documented)%s" % (sid, " — but reported now: update meta.json" if ok else ""))
+                rows.append({"id": sid, "status": "not-decided", "reason": meta.get("not_decided_reason", "")})
+                continue
             if not res["confirm"].get("applies"):
                 print("seeded %-34s SKIP (patch no longer applies: tree moved on)" % sid)
                 rows.append({"id": sid, "status": "skip"})
@@ -224,7 +230,9 @@ def main():
             fired = res.get("fired", {})
             own = meta.get("property")
             st = "CAUGHT" if fired.get(own) else ("caught-by-other" if fired else "MISSED")
-            if not fired.get(own):
+            if meta.get("expect") == "not-decided" and not fired.get(own):
+                st = "NOT-DECIDED"
+            elif not fired.get(own):
                 missed += 1
             print("%-28s %-4s %-16s %s" % (sid, own, st, "; ".join("%s:%d" % (k, len(v)) for k, v in fired.items())))
             if "--update" in sys.argv:
